@@ -391,12 +391,12 @@ def obsOfPc (pc : Pc) : Option Obs := pc.task.bind obsOfTask
 
 /-- an accepted event never changes the observation its call carries, and it leaves `claimed` as
     it was or appends exactly the observation the call carries -/
-theorem evStep_obs {k : Nat} {c : Hp.St} {cuts : Cuts} {e : Ev} {pc : Pc} {c' : Hp.St} {pc' : Pc}
+theorem evStep1_obs {k : Nat} {c : Hp.St} {cuts : Cuts} {e : Ev} {pc : Pc} {c' : Hp.St} {pc' : Pc}
     {rv : Option String} {cuts' : Cuts}
-    (h : evStep k c cuts e pc = .ok ((c', pc', rv), cuts')) :
+    (h : evStep1 k c cuts e pc = .ok ((c', pc', rv), cuts')) :
     (∀ o, obsOfPc pc' = some o → obsOfPc pc = some o) ∧
     (c'.claimed = c.claimed ∨ ∃ o, obsOfPc pc = some o ∧ c'.claimed = c.claimed ++ [o]) := by
-  unfold evStep at h
+  unfold evStep1 at h
   simp only at h
   split at h
   · rw [plainR_ok, guard_ok] at h
@@ -407,7 +407,8 @@ theorem evStep_obs {k : Nat} {c : Hp.St} {cuts : Cuts} {e : Ev} {pc : Pc} {c' : 
     obtain ⟨⟨_, h⟩, _⟩ := h; cases h
     exact ⟨fun o' ho => by simpa [obsOfPc, ht, obsOfTask] using ho,
       .inr ⟨o, by simp [obsOfPc, ht, obsOfTask], rfl⟩⟩
-  · next o b cell a rest ht =>
+  · next o b p l ht =>
+    simp only [obsEntry] at h
     split at h
     · rw [plainR_ok, guard_ok] at h
       obtain ⟨⟨_, h⟩, _⟩ := h; cases h
@@ -483,6 +484,24 @@ theorem evStep_obs {k : Nat} {c : Hp.St} {cuts : Cuts} {e : Ev} {pc : Pc} {c' : 
     · cases h
       exact ⟨fun o' ho => by simp [obsOfPc] at ho, .inl rfl⟩
   · cases h
+
+/-- skipping a no-op `addHot` concerns collectors only: the observation a call carries is unchanged -/
+theorem obsOfPc_skipPc (k : Nat) (e : Ev) (pc : Pc) : obsOfPc (skipPc k e pc) = obsOfPc pc := by
+  rcases skipTask_cases k (parseLoc e.loc) pc.task with hs | ⟨cold, ov, cell, todo, taken, S, ht, hs, _⟩
+  · rw [skipPc_of_task_eq hs]
+  · simp only [obsOfPc, skipPc, hs]; simp [ht, obsOfTask]
+
+/-- an accepted event never changes the observation its call carries, and it leaves `claimed` as
+    it was or appends exactly the observation the call carries -/
+theorem evStep_obs {k : Nat} {c : Hp.St} {cuts : Cuts} {e : Ev} {pc : Pc} {c' : Hp.St} {pc' : Pc}
+    {rv : Option String} {cuts' : Cuts}
+    (h : evStep k c cuts e pc = .ok ((c', pc', rv), cuts')) :
+    (∀ o, obsOfPc pc' = some o → obsOfPc pc = some o) ∧
+    (c'.claimed = c.claimed ∨ ∃ o, obsOfPc pc = some o ∧ c'.claimed = c.claimed ++ [o]) := by
+  unfold evStep at h
+  have h1 := evStep1_obs h
+  rw [obsOfPc_skipPc] at h1
+  exact h1
 
 theorem planObs_obs {k : Nat} {n : String} {o : Obs} {pc : Pc} (h : planObs k n o = .ok (some pc)) :
     obsOfPc pc = some o := by
